@@ -11,7 +11,7 @@ package scheduler
 //@ func (*InMemoryBuildQueue).enter
 //@   props C14
 //@   lockeffect bq.lock +1
-//@   havoc F:pkg/scheduler.worker.terminating F:pkg/scheduler.sizeClassQueue.drains -- while the lock was not held another thread may have marked workers as terminating (TerminateWorkers, worker clean-up) or changed the set of drains (AddDrain, RemoveDrain; modelled as a different drain set)
+//@   havoc F:pkg/scheduler.worker.terminating F:pkg/scheduler.sizeClassQueue.drains F:pkg/scheduler.worker.wakeup -- while the lock was not held another thread may have marked workers as terminating (TerminateWorkers, worker clean-up) or changed the set of drains (AddDrain, RemoveDrain; modelled as a different drain set), or woken up and dequeued an idle worker (wakeUp clears worker.wakeup)
 //@ func (*InMemoryBuildQueue).leave
 //@   props C14
 //@   lockeffect bq.lock -1
@@ -123,6 +123,13 @@ package scheduler
 //@   ensures_assumed r0 == (w.terminating || ufb("matchesadrain", scq.drains, workerID)) -- whether a worker matches a drain is a function of the drain set and the worker ID (workerMatchesPattern has no state)
 //@ func (*worker).getNextTask
 //@   props C05
+//@   requires w.wakeup == nil
+//@   at call enter#1 assume_post w.wakeup == nil -- rely: only getNextTask itself gives a worker a wake-up channel; this worker has none while it waits drained
+//@   at call enter#2 assume_post w.wakeup == nil -- rely: as above
+//@   at call enter#3 assume_post w.wakeup == nil -- rely: as above
+//@   at call enter#6 assume_post w.wakeup == nil -- rely: whoever closes the wake-up channel has dequeued the worker (wakeUp)
+//@   ensures a-returning-worker-is-no-longer-listed-as-waiting: w.wakeup == nil
+//@   loop 0 invariant not-queued-at-the-start-of-each-round: w.wakeup == nil
 //@   loop 0 invariant flag-is-not-stale: isDrained == (w.terminating || ufb("matchesadrain", scq.drains, workerID)) && w == old(w) && scq == old(scq) && bq == old(bq) && workerID == old(workerID)
 //@   at call assignNextQueuedTask#1 assert never-hands-work-to-a-terminating-worker: !w.terminating
 //@   at call assignNextQueuedTask#2 assert never-hands-work-to-a-terminating-worker: !w.terminating
@@ -174,7 +181,10 @@ package scheduler
 //@   ensures only-unused-non-root-invocations-are-removed: r0 ==> i.parent != nil && i.idleWorkersCount == 0
 //@   ensures unused-non-root-invocations-are-removed: !r0 ==> unchanged()
 //@ func (*operation).remove
-//@   props C06
+//@   props C06 C01 C04
+//@   ensures abandoned-operation-is-forgotten-by-its-task: old(len(o.task.operations)) != 1 ==> !(old(o.invocation) in old(o.task).operations)
+//@   ensures shared-executing-task-gives-back-the-share-of-the-abandoned-invocation:
+//@             old(len(o.task.operations)) != 1 && old(o.task.executeResponse) == nil && old(o.task.currentWorker) != nil ==> execdec(old(o.invocation)) == 1
 //@   at call removeQueuedFromInvocation#1 ghostset climbing[nil] = 1
 //@   at call delete#2 assert emptied-ancestors-are-removed-up-to-the-first-live-one: climbing(nil) == 1 ==> lastremoved(nil) == 0
 
@@ -188,12 +198,14 @@ package scheduler
 //@   ghostset unqueued[t] = old(unqueued(t)) + 1
 //@   ensures held-by-exactly-this-worker: w.currentTask == t && t.currentWorker == w
 //@ func (*worker).assignUnqueuedTask
-//@   props C01
+//@   props C01 C02
 //@   ensures held-by-exactly-this-worker: w.currentTask == t && t.currentWorker == w
+//@   ensures every-assignment-starts-with-a-fresh-redelivery-budget: t.retryCount == 0
 // An invocation stays in its parent's heap of queued children exactly as long
 // as something is still queued in it or below it.
 //@ func (*operation).removeQueuedFromInvocation
-//@   props C01
+//@   props C01 C04
+//@   at call heapRemoveOrFix#1 assert resorted-with-a-refreshed-head-priority: priorefreshed(i) == 1
 //@   at call heapRemoveOrFix#1 assert stays-queued-iff-something-is-queued-in-or-below:
 //@             arg2 == len(i.queuedChildren) + len(i.queuedOperations) && arg0 == &i.parent.queuedChildren && arg1 == i.queuedChildrenIndex
 
@@ -208,3 +220,37 @@ package scheduler
 //@   at call enter#3 assume_post o.cleanupKey == 0 && o.waiters >= 1 -- rely: while this call is counted in o.waiters no other thread arms the operation's clean-up entry (maybeStartCleanup requires waiters == 0) and the count stays positive
 //@   at call enter#4 assume_post o.cleanupKey == 0 && o.waiters >= 1 -- rely: as above
 //@   at call Send#1 assert final-message-iff-the-task-has-its-response: operation.Done == (o.task.executeResponse != nil) && operation.Name == o.name
+
+// execdec(i): decrementExecutingWorkersCount calls that started at invocation i.
+//@ ghost map execdec(ref) int zero
+//@ func (*invocation).decrementExecutingWorkersCount
+//@   props C04
+//@   ghostset execdec[i] = old(execdec(i)) + 1
+
+// A worker that leaves getNextTask is no longer listed as idle and waiting,
+// whichever way the wait ended (task, timeout, cancellation): otherwise tasks
+// are handed to a worker that is gone.
+//@ func (*worker).dequeue
+//@   props C06
+//@   ensures no-longer-waiting: w.wakeup == nil
+//@ func (*worker).maybeDequeue
+//@   props C06
+//@   ensures no-longer-waiting: w.wakeup == nil
+
+// A client can only (re)attach to an operation that is still registered under
+// its name after the lock was dropped for authorization.
+//@ func (*InMemoryBuildQueue).WaitExecution
+//@   props C02 C03 C06
+//@   at call waitExecution#1 assert operation-is-still-registered-after-authorization: bq.operationsNameMap[in.Name] == arg0
+
+// An invocation is re-sorted among its siblings only after its own head
+// priority has been refreshed (priorefreshed(i): refreshed by this call).
+//@ ghost map priorefreshed(ref) int zero
+//@ func (*invocation).updateFirstOperationPriority
+//@   props C04
+//@   ghostset priorefreshed[i] = 1
+//@   ensures head-of-own-queue-first: len(i.queuedOperations) > 0 ==> i.firstQueuedOperationPriority == i.queuedOperations[0].priority
+//@   ensures else-head-of-best-child: len(i.queuedOperations) == 0 && len(i.queuedChildren) > 0 ==> i.firstQueuedOperationPriority == i.queuedChildren[0].firstQueuedOperationPriority
+//@ func (*operation).enqueue
+//@   props C04
+//@   at call heapPushOrFix#1 assert resorted-with-a-refreshed-head-priority: priorefreshed(i) == 1 && arg0 == &i.parent.queuedChildren && arg1 == i.queuedChildrenIndex && arg2 == i
